@@ -1,4 +1,9 @@
 //! Conformance harness for the rolling subsystem (C01-C06, C10 driver part).
+mod kern;
+mod roll1;
+mod roll2;
+mod prefix;
+mod rec;
 mod window;
 
 use tvh_common::*;
@@ -9,6 +14,12 @@ fn main() {
     match args.cmd() {
         "replay-window" => window::replay(&args),
         "record-window" => window::record(&args),
+        "replay-roll1" => roll1::replay(&args),
+        "replay-roll2" => roll2::replay(&args),
+        "record-roll1" => rec::record_roll1(&args),
+        "record-roll2" => rec::record_roll2(&args),
+        "replay-prefix" => prefix::replay(&args),
+        "replay-history" => prefix::history(&args),
         other => tool_error(&format!("unknown command {other:?}")),
     }
 }
